@@ -64,7 +64,7 @@ func init() {
 		Props: []string{"CONF"},
 		Obligs: func(tier string) []Oblig {
 			var obs []Oblig
-			for k := 0; k < 51; k++ {
+			for k := 0; k < nFmtKinds; k++ {
 				obs = append(obs, Oblig{Harness: "H_conf", Args: []int{k}})
 			}
 			for k := 100; k < 112; k++ {
@@ -72,5 +72,249 @@ func init() {
 			}
 			return obs
 		},
+	})
+}
+
+// ---- history obligations (H_hist) ----
+
+const nHistOps = 19
+
+var coreOps = []int{0, 1, 2, 3, 4, 5, 8, 15, 16, 18} // SafeString UnsafeString SafeRune UnsafeRune SafeByte UnsafeByte Write PrintStr PrintfStr PrintRedactable
+var strOps = []int{0, 1, 15, 17}
+
+func histObligs(tier string, panicViol bool) []Oblig {
+	var obs []Oblig
+	add := func(n int, ops ...int) {
+		obs = append(obs, Oblig{Harness: "H_hist", Args: append([]int{n}, ops...), PanicViol: panicViol})
+	}
+	for op := 0; op < nHistOps; op++ {
+		add(1, op)
+		add(3, op)
+	}
+	if tier == "thorough" {
+		for a := 0; a < nHistOps; a++ {
+			for b := 0; b < nHistOps; b++ {
+				add(1, a, b)
+			}
+		}
+		for _, a := range coreOps {
+			for _, b := range coreOps {
+				add(2, a, b)
+				for _, c := range []int{0, 1, 3, 16} {
+					add(1, a, b, c)
+				}
+			}
+		}
+	} else {
+		for _, a := range coreOps {
+			for _, b := range coreOps {
+				add(1, a, b)
+			}
+		}
+		for _, a := range strOps {
+			for _, b := range strOps {
+				add(2, a, b)
+			}
+		}
+		for _, c := range []int{0, 3} {
+			for _, a := range []int{1, 16} {
+				for _, b := range []int{0, 1, 18} {
+					add(1, a, b, c)
+				}
+			}
+		}
+	}
+	return obs
+}
+
+func histBounds(tier string) map[string]interface{} {
+	if tier == "thorough" {
+		return map[string]interface{}{"history_length": "1..3 calls", "scripts": "all 19 ops (len 1), all 361 pairs (payload 1 B), 100 core pairs (payload 2 B), 400 core triples (payload 1 B)", "payload": "fully symbolic bytes (<=3), full 32-bit runes, full bytes, ints 0..99"}
+	}
+	return map[string]interface{}{"history_length": "1..3 calls", "scripts": "all 19 ops (payload 1 and 3 B), 100 core pairs (payload 1 B), 16 string-op pairs (payload 2 B), 12 triples", "payload": "fully symbolic bytes (<=3), full 32-bit runes, full bytes, ints 0..99"}
+}
+
+func init() {
+	register(&CheckSpec{
+		ID:      "C09",
+		Props:   []string{"C09"},
+		Obligs:  func(tier string) []Oblig { return histObligs(tier, false) },
+		Bounds:  histBounds,
+		Goals:   []string{"valid-payloads"},
+		Assume:  []string{"the two equalities are asserted only for valid-UTF-8 string payloads, valid runes and ASCII single bytes (the property's quantifier); well-formedness and line safety for all payloads"},
+		Stubs:   []string{"sync.Pool: LIFO model", "strconv.AppendFloat on the concrete 1.5 interpreted from source"},
+		Outside: []string{"histories longer than 3 calls", "payloads longer than 3 bytes", "paths that end in a panic (see C11)"},
+	})
+}
+
+func init() {
+	register(&CheckSpec{
+		ID:    "C11",
+		Props: []string{"C11"},
+		Obligs: func(tier string) []Oblig {
+			var obs []Oblig
+			for _, o := range histObligs(tier, true) {
+				if len(o.Args) <= 3 || tier == "thorough" {
+					obs = append(obs, o)
+				}
+			}
+			return obs
+		},
+		Bounds:  histBounds,
+		Assume:  []string{"Grow(n<0) and ErrTooLarge are documented panics outside the claim"},
+		Stubs:   []string{"sync.Pool: LIFO model"},
+		Outside: []string{"histories longer than 3 calls"},
+	})
+}
+
+// ---- printer-level tables ----
+
+const nFmtKinds = 53 // fmt-compatible value kinds of h_values.go
+const nDirectives = 50
+
+// kinds whose rendering depends on the string leaf
+var strKinds = []int{0, 1, 2, 12, 13, 14, 15, 16, 18, 19, 21, 25, 26, 27, 28, 31, 33, 34, 35, 36, 37, 38, 39, 41, 42, 43, 44, 47, 50}
+var deepStrKinds = []int{0, 1, 14, 25, 27, 31, 35}
+var deepDirs = []int{0, 2, 3, 4, 5, 16, 17, 19, 20, 21, 25, 28}
+
+func c04Obligs(tier string) []Oblig {
+	var obs []Oblig
+	isStr := map[int]bool{}
+	for _, k := range strKinds {
+		isStr[k] = true
+	}
+	for k := 0; k < nFmtKinds; k++ {
+		for d := 0; d < nDirectives; d++ {
+			n := 0
+			if isStr[k] {
+				n = 1
+			}
+			obs = append(obs, Oblig{Harness: "H_c04", Args: []int{k, d, n}})
+		}
+	}
+	dn := 2
+	if tier == "thorough" {
+		dn = 3
+	}
+	for _, k := range deepStrKinds {
+		for _, d := range deepDirs {
+			obs = append(obs, Oblig{Harness: "H_c04", Args: []int{k, d, dn}})
+		}
+	}
+	if tier == "thorough" {
+		for _, k := range strKinds {
+			for d := 0; d < nDirectives; d++ {
+				obs = append(obs, Oblig{Harness: "H_c04", Args: []int{k, d, 2}})
+			}
+		}
+	}
+	for _, k1 := range []int{0, 3, 14, 27, 31, 10, 1, 36} {
+		for _, k2 := range []int{0, 3, 10, 27, 19} {
+			obs = append(obs, Oblig{Harness: "H_c04p", Args: []int{k1, k2, 2}})
+		}
+	}
+	return obs
+}
+
+func init() {
+	register(&CheckSpec{
+		ID:     "C04",
+		Props:  []string{"C04"},
+		Obligs: c04Obligs,
+		Bounds: func(tier string) map[string]interface{} {
+			return map[string]interface{}{"value_kinds": nFmtKinds, "directives": nDirectives, "string_leaf_bytes": "1 for the full kind x directive table, 2 (3 thorough) for 7 kinds x 12 directives", "int_leaves": "0..9999 symbolic", "runes": "all valid runes", "sprint_pairs": 40}
+		},
+		Goals:   []string{"marker-in-leaf"},
+		Assume:  []string{"string leaves are valid UTF-8 (the property's quantifier)", "operands that would print a machine address are skipped"},
+		Stubs:   []string{"reflect: emulated over go/types (validated by the conformance set)", "sync.Pool: LIFO model", "stdlib fmt and strconv: interpreted from their Go 1.23.5 source by the same engine"},
+		Outside: []string{"floating-point digit generation is concrete", "longer leaves", "formats outside the directive table"},
+	})
+}
+
+
+var c02RedactKinds = []int{103, 104, 105, 106, 110, 111}
+
+func hasPrecision(d int) bool {
+	switch d {
+	case 19, 20, 27, 39:
+		return true
+	}
+	return false
+}
+
+func c02Obligs(tier string) []Oblig {
+	var obs []Oblig
+	isStr := map[int]bool{}
+	for _, k := range strKinds {
+		isStr[k] = true
+	}
+	kinds := []int{}
+	for k := 0; k < nFmtKinds; k++ {
+		kinds = append(kinds, k)
+	}
+	for _, k := range c02RedactKinds {
+		kinds = append(kinds, k)
+		isStr[k] = true
+	}
+	for _, k := range kinds {
+		for d := 0; d < nDirectives; d++ {
+			if !isStr[k] {
+				obs = append(obs, Oblig{Harness: "H_c02", Args: []int{k, d, 0, -1}})
+				continue
+			}
+			obs = append(obs, Oblig{Harness: "H_c02", Args: []int{k, d, 1, -1}})
+			if !hasPrecision(d) {
+				obs = append(obs, Oblig{Harness: "H_c02", Args: []int{k, d, 1, 0}})
+			}
+		}
+	}
+	dn := 2
+	if tier == "thorough" {
+		dn = 3
+	}
+	deepK := []int{0, 1, 25, 27, 31, 103, 106}
+	if tier == "thorough" {
+		deepK = append(append([]int{}, deepStrKinds...), 103, 106, 110)
+	}
+	for _, k := range deepK {
+		for _, d := range deepDirs {
+			for lf := -1; lf < dn; lf++ {
+				if lf >= 0 && hasPrecision(d) {
+					continue
+				}
+				obs = append(obs, Oblig{Harness: "H_c02", Args: []int{k, d, dn, lf}})
+			}
+		}
+	}
+	if tier == "thorough" {
+		for _, k := range kinds {
+			if !isStr[k] {
+				continue
+			}
+			for d := 0; d < nDirectives; d++ {
+				for lf := -1; lf < 2; lf++ {
+					if lf >= 0 && hasPrecision(d) {
+						continue
+					}
+					obs = append(obs, Oblig{Harness: "H_c02", Args: []int{k, d, 2, lf}})
+				}
+			}
+		}
+	}
+	return obs
+}
+
+func init() {
+	register(&CheckSpec{
+		ID:     "C02",
+		Props:  []string{"C02"},
+		Obligs: c02Obligs,
+		Bounds: func(tier string) map[string]interface{} {
+			return map[string]interface{}{"value_kinds": nFmtKinds + len(c02RedactKinds), "directives": nDirectives, "secret_string_bytes": "1 for the full table, 2 (3 thorough) for 10 kinds x 12 directives; thorough also 2 for the full table", "line_feed_classes": "none, or exactly one LF at each position (no LF under a precision)", "secret_ints": "11..9999 symbolic (verbs c/q/U: < 256)", "secret_runes": "all valid runes >= 11"}
+		},
+		Goals:   []string{"symbolic-secret"},
+		Assume:  []string{"signature class of a secret: length, positions of line feeds; ints exclude 0..10 (zero-ness under %.0d and LF under %c are separate classes, not explored)", "redaction is computed with the byte-level reference redactRef (C07 relates it to Redact())"},
+		Stubs:   []string{"reflect emulated", "sync.Pool LIFO"},
+		Outside: []string{"float digits concrete", "decimal ints above 9999", "formats outside the directive table", "paths that end in a panic"},
 	})
 }
